@@ -12,8 +12,9 @@ EXTENDS Solver, TLC, Json, IOUtils
 
 Rec == ndJsonDeserialize(IOEnv.TRACE)
 
-VARIABLES l, last    \* position in the trace; first answer of the preceding call of the history
-vars == <<l, last>>
+VARIABLES l, last,   \* position in the trace; first answer of the preceding call of the history
+          fam         \* the first call of the family under way: its identity (robot, stack, limits, arguments) and answers
+vars == <<l, last, fam>>
 
 STEP_AU == 30000     \* 3 degrees: bound on the distance of a followed answer from the trajectory point
 
@@ -29,15 +30,22 @@ Judge(e) ==
     [] e.ev = "reset"  -> {}
     [] OTHER           -> {"unknown-event"}
 
-Init == l = 1 /\ last = <<>>
+\* A call is a function of the object and the arguments.  Families repeat their first call (member "again", same
+\* identity key) after a related robot was asked; answers that differ are counted (register 2) and shown in the
+\* evidence - a divergence, not a violation: each call is judged against the contract on its own.
+Repeats(e) == e.ev = "ik" /\ e.outcome = "ok" /\ e.member = "again" /\ fam.key = e.key /\ fam.qs # Qs(e)
+
+Init == l = 1 /\ last = <<>> /\ fam = [key |-> "", qs |-> <<>>] /\ TLCSet(2, 0)
 Next ==
   /\ l <= Len(Rec)
   /\ LET e == Rec[l]  bad == Judge(e) IN
        /\ (bad = {} \/ PrintT(ToJson([tag |-> "viol", l |-> l, clause |-> bad])))
        /\ last' = IF e.ev = "follow" /\ e.outcome = "ok" /\ e.answers # <<>> THEN e.answers[1].q
                   ELSE IF e.ev = "reset" THEN <<>> ELSE last
+       /\ fam' = IF e.ev = "ik" /\ e.outcome = "ok" /\ e.member = "first" THEN [key |-> e.key, qs |-> Qs(e)] ELSE fam
+       /\ (IF Repeats(e) THEN TLCSet(2, TLCGet(2) + 1) ELSE TRUE)
   /\ TLCSet(1, l)
   /\ l' = l + 1
 Spec == Init /\ [][Next]_vars
-Post == PrintT(ToJson([tag |-> "done", n |-> IF Len(Rec) = 0 THEN 0 ELSE TLCGet(1)]))
+Post == PrintT(ToJson([tag |-> "done", n |-> IF Len(Rec) = 0 THEN 0 ELSE TLCGet(1), repeats_differ |-> TLCGet(2)]))
 =============================================================================
